@@ -14,6 +14,10 @@
 (*        connection, as [host, port]                                        *)
 (*  [e |-> "route", outcome, node]  a key-addressed call: the node that       *)
 (*        received the command ([host, port]), outcome "ok" | "exc:<name>"    *)
+(*  [e |-> "fault", node]  the environment made a call on this node fail with *)
+(*        a connection error: failover (C13) may keep it out of the rotation  *)
+(*        until the next reconfiguration; while every current node is in that *)
+(*        state a key-addressed call may raise instead of being routed        *)
 (***************************************************************************)
 EXTENDS Naturals, Sequences, FiniteSets
 
@@ -21,10 +25,11 @@ SeqSet(s) == { s[i] : i \in DOMAIN s }
 NameOf(vpc, n) == [host |-> IF vpc THEN n.ip ELSE n.fqdn, port |-> n.port]
 Names(vpc, nodes) == { NameOf(vpc, nodes[i]) : i \in DOMAIN nodes }
 
-DMonInit(h) == [vpc |-> h.vpc, adv |-> <<>>, err |-> FALSE, cur |-> {}, valid |-> FALSE]
+DMonInit(h) == [vpc |-> h.vpc, adv |-> <<>>, err |-> FALSE, cur |-> {}, valid |-> FALSE, faulted |-> {}]
 
 DMonClauses(m, ev) ==
   CASE ev.e = "advertise" -> << >>
+    [] ev.e = "fault" -> << >>
     [] ev.e = "discover" ->
          << <<"C19-config-ERROR-surfaces-as-a-memcached-error", m.err => ev.outcome = "memcache-error">>,
             <<"C19-discovery-succeeds-however-the-reply-is-split", ~m.err => ev.outcome = "ok">>,
@@ -33,13 +38,14 @@ DMonClauses(m, ev) ==
             <<"C19-connections-to-replaced-nodes-are-closed",
                   (~m.err /\ ev.outcome = "ok") => SeqSet(ev.open) \subseteq Names(m.vpc, m.adv)>> >>
     [] ev.e = "route" ->
-         << <<"C19-every-key-is-routed-to-a-node", m.valid => ev.outcome = "ok">>,
+         << <<"C19-every-key-is-routed-to-a-node", (m.valid /\ ~(m.cur \subseteq m.faulted)) => ev.outcome = "ok">>,
             <<"C19-no-key-goes-to-a-node-that-is-not-advertised", (m.valid /\ ev.outcome = "ok") => ev.node \in m.cur>> >>
     [] OTHER -> << <<"known-event", FALSE>> >>
 
 DMonEffect(m, ev) ==
   CASE ev.e = "advertise" -> [m EXCEPT !.adv = ev.nodes, !.err = ev.error]
-    [] ev.e = "discover" -> IF ev.outcome = "ok" /\ ~m.err THEN [m EXCEPT !.cur = Names(m.vpc, m.adv), !.valid = TRUE] ELSE m
+    [] ev.e = "discover" -> IF ev.outcome = "ok" /\ ~m.err THEN [m EXCEPT !.cur = Names(m.vpc, m.adv), !.valid = TRUE, !.faulted = {}] ELSE m
+    [] ev.e = "fault" -> [m EXCEPT !.faulted = m.faulted \cup {ev.node}]
     [] OTHER -> m
 DMonFinal(m) == <<>>
 =============================================================================
